@@ -4,6 +4,12 @@
 
 package common
 
+//@ -- SnapId(s): the value id (builtin kvval) of the payload hash of s, as a function of the scalar payload fields and of the identity
+//@ -- of the References object and of the Transactions slice (added for C15, which needs "the hash recorded under FINALIZATION/<tx> is
+//@ -- the hash the snapshot is stored under"). ASSUMED determinism of the hash; in-place mutation of *s.References or of the elements
+//@ -- of s.Transactions between two calls is not tracked by this name (no function under contract does that).
+//@ uninterp SnapHashFn(v mathint, n mathint, r mathint, t mathint, refs *RoundLink, txs []crypto.Hash) mathint
+//@ spec SnapId(s *Snapshot) mathint = SnapHashFn(s.Version, kvval(s.NodeId), s.RoundNumber, s.Timestamp, s.References, s.Transactions)
 //@ -- SnapSrc(s): identity of the snapshot object at s as a payload carrier -- for an object returned by UnmarshalVersionedSnapshot the id
 //@ -- (kvval) of the byte string it was decoded from (a fact about the allocation, hence a function of the pointer), otherwise an arbitrary
 //@ -- number. SnapPH: the payload hash as a function of that identity and of the scalar payload fields.
@@ -18,6 +24,7 @@ package common
 //@   requires s != nil && s.Version == SnapshotVersionCommonEncoding
 //@   modifies nothing
 //@   ensures [deterministic] result == SnapPH(SnapSrc(s), s.NodeId, s.RoundNumber, s.Timestamp, len(s.Transactions))
+//@   ensures [deterministic-id] kvval(result) == SnapId(s)
 
 // ───────────── round.go (C19, C18) ─────────────
 
